@@ -21,6 +21,7 @@ type Schema struct {
 	foreignObjects     *orderedmap.Map[string, ast.Object]
 	referenceResolver  func(ref ast.RefType) (ast.Object, bool)
 	isForeignReference func(ref ast.RefType) bool
+	definitionName     func(ref ast.RefType) string
 }
 
 func (jenny Schema) JennyName() string {
@@ -64,6 +65,29 @@ func (jenny Schema) GenerateSchema(context languages.Context, schema *ast.Schema
 		return context.LocateObject(ref.ReferredPkg, ref.ReferredType)
 	}
 
+	// Definitions are keyed by object name. A foreign object named like an
+	// object of this schema – or like a foreign object of another package –
+	// is inlined under a package-qualified key instead of replacing it.
+	foreignNameOwners := make(map[string]string)
+	jenny.definitionName = func(ref ast.RefType) string {
+		if !jenny.isForeignReference(ref) {
+			return ref.ReferredType
+		}
+
+		if _, takenLocally := schema.LocateObject(ref.ReferredType); !takenLocally {
+			owner, taken := foreignNameOwners[ref.ReferredType]
+			if !taken {
+				foreignNameOwners[ref.ReferredType] = ref.ReferredPkg
+				return ref.ReferredType
+			}
+			if owner == ref.ReferredPkg {
+				return ref.ReferredType
+			}
+		}
+
+		return ref.ReferredPkg + "." + ref.ReferredType
+	}
+
 	jsonSchema := orderedmap.New[string, any]()
 	jsonSchema.Set("$schema", "http://json-schema.org/draft-07/schema#")
 
@@ -96,7 +120,7 @@ func (jenny Schema) GenerateSchema(context languages.Context, schema *ast.Schema
 			}
 			inlined[ref] = struct{}{}
 
-			definitions.Set(foreignObject.Name, jenny.objectToDefinition(foreignObject))
+			definitions.Set(jenny.definitionName(foreignObject.SelfRef), jenny.objectToDefinition(foreignObject))
 		})
 	}
 
@@ -253,7 +277,10 @@ func (jenny Schema) formatRef(typeDef ast.Type) Definition {
 	}
 
 	// TODO: handle foreign refs
-	definition.Set("$ref", jenny.ReferenceFormatter(ref))
+	definition.Set("$ref", jenny.ReferenceFormatter(ast.RefType{
+		ReferredPkg:  ref.ReferredPkg,
+		ReferredType: jenny.definitionName(ref),
+	}))
 
 	return definition
 }
